@@ -1,6 +1,7 @@
 package srv
 
 import (
+	"crypto/tls"
 	"fmt"
 	"runtime/debug"
 	"strings"
@@ -31,6 +32,13 @@ var FixedClock = time.Unix(1700000000, 0)
 
 // RunConn drives one scripted connection through server.VerifServeConn.
 func RunConn(server *redis.Server, conn *seq.Conn) (out Outcome) {
+	return RunConnTLS(server, conn, nil)
+}
+
+// RunConnTLS is RunConn for a connection the server takes for a TLS one:
+// tlsState (non-nil) is what the accept path would have obtained from the
+// finished handshake.
+func RunConnTLS(server *redis.Server, conn *seq.Conn, tlsState *tls.ConnectionState) (out Outcome) {
 	vrt.SetSeqClock(FixedClock)
 	vrt.ResetTicks()
 	inner := conn.OnRead
@@ -53,7 +61,7 @@ func RunConn(server *redis.Server, conn *seq.Conn) (out Outcome) {
 				out.PanicSite = PanicSite(string(debug.Stack()))
 			}
 		}()
-		err := server.VerifServeConn(conn, nil)
+		err := server.VerifServeConn(conn, tlsState)
 		if err != nil {
 			out.Err = err.Error()
 		}
